@@ -1226,17 +1226,17 @@ func c16PickStage(r *Rand, quirkOK bool) string {
 		return "listen"
 	case x < 85:
 		return "file"
-	case x < 91:
+	case x < 89:
 		return "restartcb"
-	case x < 94:
+	case x < 92:
 		return "rfailedcb"
-	case x < 97:
+	case x < 95:
 		return "finalcb"
 	}
-	if quirkOK {
-		return "shutdowncb"
-	}
-	return "none"
+	// an OnShutdown callback that fails: when !quirkOK the history generator never reloads such an
+	// instance (that is the class of the known finding), but it does stop it, signal it, etc.
+	_ = quirkOK
+	return "shutdowncb"
 }
 
 func c16GenHistory(r *Rand, maxOps int, quirkOK bool) []c16Op {
@@ -1278,6 +1278,11 @@ func c16GenHistory(r *Rand, maxOps int, quirkOK bool) []c16Op {
 			x = 58 + r.Intn(42)
 			if x >= 63 && x < 68 {
 				x = 90
+			}
+		}
+		if x < 45 && !quirkOK {
+			if li := g.find(h); li != nil && c16AnyFail(li.cfg.Shutdown) {
+				x = 52 + r.Intn(48) // not reloaded: stop it, run its callbacks, signal, wait
 			}
 		}
 		switch {
